@@ -60,8 +60,11 @@ func (e Env) Run(args ...string) Result {
 	return r
 }
 
+// Crashed: the process hung, was ended by a signal, could not be started, or left the traces of a Go panic or a
+// runtime fatal error. A plain exit status above 1 is not a crash by itself: no property fixes the status of a
+// failed run beyond "non-zero" (a taskctl that passed a task's own exit status on would be within its rights).
 func (r Result) Crashed() bool {
-	if r.TimedOut || (r.Exit != 0 && r.Exit != 1) {
+	if r.TimedOut || r.Exit < 0 {
 		return true
 	}
 	for _, s := range []string{r.Stdout, r.Stderr} {
